@@ -55,7 +55,7 @@ MIN_OBS = {
                  'runs_with_many_proposals': 900},
 }
 SHARD_TIMEOUT = {'quick': 600, 'thorough': 5400}
-SIZES = {'quick': 1500, 'thorough': 10000}
+SIZES = {'quick': 1500, 'thorough': 200000}
 WHAT_FAILS = {
     'forward:': 'a search request was not passed on exactly once to exactly the current children',
     'own-search:forwarded': 'a request carrying the own user name was passed on to the children',
